@@ -309,9 +309,9 @@ func init() {
 					return
 				}
 			}
-			depth := 3
+			depth := 4
 			if c.Thorough() {
-				depth = 4
+				depth = 5
 			}
 			var alphabet []c13Op
 			for _, k := range c13Lens {
